@@ -200,11 +200,15 @@ DictPut(d, rec) ==
   THEN [j \in 1..Len(d) |-> IF d[j].attr = rec.attr THEN rec ELSE d[j]]
   ELSE Append(d, rec)
 
+(* _Property.bind: `if not self.source: self.source = name` -- an empty     *)
+(* JSON name is falsy, so the attribute name takes its place               *)
+SourceOf(nm) == IF Len(nm) = 0 THEN ItemAtoms(AttrNameC(nm)) ELSE nm
+
 RECURSIVE PropsFrom(_, _, _, _)
 PropsFrom(names, req, i, d) ==
   IF i > Len(names) THEN d
   ELSE PropsFrom(names, req, i + 1,
-                 DictPut(d, [attr |-> FlatAttr(names[i]), source |-> names[i],
+                 DictPut(d, [attr |-> FlatAttr(names[i]), source |-> SourceOf(names[i]),
                              required |-> \E j \in 1..Len(req) : req[j] = names[i]]))
 ParsePropsC(names, req) == PropsFrom(names, req, 1, <<>>)
 
@@ -215,7 +219,7 @@ ObjectPropsC(names, req) ==
       synth(i, d) ==
         IF i > Len(req) THEN d
         ELSE IF has(FlatAttr(req[i])) THEN synth(i + 1, d)
-        ELSE synth(i + 1, DictPut(d, [attr |-> FlatAttr(req[i]), source |-> req[i],
+        ELSE synth(i + 1, DictPut(d, [attr |-> FlatAttr(req[i]), source |-> SourceOf(req[i]),
                                       required |-> TRUE]))
   IN props \o synth(1, <<>>)
 
@@ -337,12 +341,12 @@ Positions == PropPositions \cup {"pattern", "deps", "addl", "defs"}
 
 (* _ParseState.dedupe: seen = sequence of [key (formatted title), struct,  *)
 (* name, uid]; returns <<seen', class>>                                    *)
-Dedupe(seen, key, struct) ==
+Dedupe(seen, key, struct, inner) ==
   LET same == {j \in 1..Len(seen) : seen[j].key = key}
       hit  == {j \in same : seen[j].struct = struct}
   IN IF hit # {} THEN << seen, seen[CHOOSE j \in hit : \A h \in hit : j <= h] >>
      ELSE LET count == Cardinality(same)
-              cls == [key |-> key, struct |-> struct, uid |-> Len(seen) + 1,
+              cls == [key |-> key, struct |-> struct, uid |-> Len(seen) + 1, inner |-> inner,
                       name |-> IF count = 0 THEN key ELSE key \o "_" \o ToString(count)]
           IN << Append(seen, cls), cls >>
 
@@ -366,14 +370,17 @@ ParseDocC(rootTitle, slots) ==
         IF i > Len(js) THEN acc
         ELSE LET j  == js[i]
                  sl == slots[j]
-                 r1 == Dedupe(acc.seen, TitleFormatC(sl.title), ShapeStruct(sl.shape))
-                 a1 == [acc EXCEPT !.seen = r1[1], !.cls = Append(acc.cls, <<j, r1[2]>>)]
+                 r1 == Dedupe(acc.seen, TitleFormatC(sl.title), ShapeStruct(sl.shape), 0)
              IN IF sl.pos = "nest"
-                THEN LET r2 == Dedupe(a1.seen, "Mid", "mid-" \o ShapeStruct(sl.shape))
-                     IN walk(js, i + 1, [a1 EXCEPT !.seen = r2[1], !.mid = Append(a1.mid, <<j, r2[2]>>)])
-                ELSE walk(js, i + 1, a1)
+                THEN (* the intermediate object: when an equal one exists already it is  *)
+                     (* returned, and with it ITS inner class                            *)
+                     LET r2 == Dedupe(r1[1], "Mid", "mid-" \o ShapeStruct(sl.shape), r1[2].uid)
+                     IN walk(js, i + 1, [seen |-> r2[1],
+                                         cls |-> Append(acc.cls, <<j, r2[1][r2[2].inner]>>),
+                                         mid |-> Append(acc.mid, <<j, r2[2]>>)])
+                ELSE walk(js, i + 1, [acc EXCEPT !.seen = r1[1], !.cls = Append(acc.cls, <<j, r1[2]>>)])
       a   == walk(before, 1, [seen |-> <<>>, cls |-> <<>>, mid |-> <<>>])
-      rr  == Dedupe(a.seen, TitleFormatC(rootTitle), "root")
+      rr  == Dedupe(a.seen, TitleFormatC(rootTitle), "root", 0)
       b   == walk(ord[5], 1, [a EXCEPT !.seen = rr[1]])
   IN [seen |-> b.seen, cls |-> b.cls, mid |-> b.mid, root |-> rr[2]]
 =============================================================================
